@@ -101,7 +101,10 @@ def exprs_for(di):
 
 
 CURATED = {
-    0: ['//a', './/b', '/r/a/../b', '/r//a', '/r/a/@x', '/r/*/@*', "//*[@x='1']", '(//a)[2]', '(//a | //b)[last()]', '//a[b][1]', '//a[1][b]', '/r/a[1]/b[1]', '//a | //b | //c', '(//a | //b)', '//a[. = 3]',
+    0: ['1 div sum(//nosuch)', '1 div count(//nosuch)', "1 div string-length('')", '1 div floor(0.5)', '1 div ceiling(-0.5)', '1 div round(-0.2)', '1 div round(0.2)', '1 div round(-0.5)', '1 div (0 * -1)', '1 div (0 div -5)',
+        '1 div (1 - 1)', '1 div (-1 + 1)', 'string(sum(//nosuch))', 'string(count(//nosuch))', "1 div number('0')", "1 div number('-0')", '1 div (0 mod 5)', '1 div (-5 mod 5)', '1 div (5 mod -5)', '1 div sum(//c)', '1 div number(false())',
+        '1 div (sum(//nosuch) * -1)', '1 div floor(-0.5)', '1 div ceiling(0.5)', 'sum(//nosuch) = 0', '1 div string-length(//c)', '1 div count(//c/*)',
+        '//a', './/b', '/r/a/../b', '/r//a', '/r/a/@x', '/r/*/@*', "//*[@x='1']", '(//a)[2]', '(//a | //b)[last()]', '//a[b][1]', '//a[1][b]', '/r/a[1]/b[1]', '//a | //b | //c', '(//a | //b)', '//a[. = 3]',
         '//*[name()="a"]', '//*[local-name()="b"]', '//*[string()="3"]', '//*[string-length()=1]', "//*[normalize-space()='6']", '//node()[last()]', '//*[last()]', '/r/*[position()=2 or position()=4]',
         '//a[not(b)]', '//*[count(*)=0]', '//*[*]', '/r/node()[3]', '/r/text()', '/r/a/text()[2]', '//a/ancestor::*[1]', '//a/ancestor::*[last()]', '//c/preceding::*[1]', '//c/preceding::node()[2]',
         '//c/following::node()[1]', '(//c/preceding::*)[1]', '//b/preceding-sibling::*[1]', '//b/preceding-sibling::node()[1]', '(//b/preceding-sibling::node())[1]', '/r/*[last()]/a', '/descendant::a[2]', '/descendant::a[last()]',
